@@ -256,6 +256,21 @@ def normalize (E : Env) (u : Uri) : Uri :=
     path := if !startsWith q [0x2F] && !host.isEmpty && !sc.isEmpty && !q.isEmpty then 0x2F :: q else q,
     query := u.query, fragment := u.fragment }
 
+/-- attribute assignment `uri.<name> = text` (`URI.__setattr__`, the `port` setter): the scheme switches the class by a
+    case-sensitive lookup of the text as given; an empty port means `None` and stores the class default of the class the
+    object has at that moment (so the order of assignments matters before normalisation, not after). -/
+def assign (S : Schemes) (u : Uri) (name value : Bytes) : Uri :=
+  if name == "scheme".toUTF8.toList then setScheme S u value
+  else if name == "username".toUTF8.toList then { u with username := value }
+  else if name == "password".toUTF8.toList then { u with password := value }
+  else if name == "host".toUTF8.toList then { u with host := value }
+  else if name == "port".toUTF8.toList then
+    { u with port := if value.isEmpty then u.PORT else some (StartLine.decNat value) }
+  else if name == "path".toUTF8.toList then { u with path := value }
+  else if name == "query_string".toUTF8.toList then { u with query := value }
+  else if name == "fragment".toUTF8.toList then { u with fragment := value }
+  else u
+
 /-! ### compose -/
 
 structure Sets where
